@@ -215,6 +215,9 @@ void c01_case(Ctx &c) {
           case 3: COTPdoTrigPdo(s.node->TPdo, (uint16_t)c.t.below(6)); break;
           case 4: { auto m = mux[c.t.below((uint32_t)mux.size())]; CO_OBJ *o = s.find(m.first, m.second); if (o) COTPdoTrigObj(s.node->TPdo, o); break; }
           case 5: { auto m = mux[c.t.below((uint32_t)mux.size())]; uint32_t key = CO_DEV(m.first, m.second); uint32_t v = c.t.u32(); uint32_t k = c.t.below(6); uint8_t b8; uint16_t b16; uint32_t b32;
+            // constants (direct read-only entries such as sub-index 0 of the array objects) live in ROM: an application cannot change them, and the
+            // assumption 'sub-index 0 equals the highest sub-index present' would not survive the write
+            { CO_OBJ *o = s.find(m.first, m.second); if (k <= 2 && o && CO_IS_DIRECT(o->Key) && !CO_IS_WRITE(o->Key)) { k += 3; c.cls("api-write-to-constant-turned-into-read"); } }
             if (k == 0) CODictWrByte(&s.node->Dict, key, (uint8_t)v); else if (k == 1) CODictWrWord(&s.node->Dict, key, (uint16_t)v); else if (k == 2) CODictWrLong(&s.node->Dict, key, v); else if (k == 3) CODictRdByte(&s.node->Dict, key, &b8); else if (k == 4) CODictRdWord(&s.node->Dict, key, &b16); else CODictRdLong(&s.node->Dict, key, &b32); break; }
           case 6: { uint32_t len = c.t.biased(0, 4100, DM, 6); uint8_t *buf = (uint8_t *)malloc(len ? len : 1); memset(buf, 0x3C, len ? len : 1); static const uint16_t BO[4] = {0x2001, 0x2007, 0x2008, 0x2100}; uint16_t bi = BO[c.t.below(4)];
             if (c.t.coin()) CODictRdBuffer(&s.node->Dict, CO_DEV(bi, bi == 0x2100 ? 1 : 0), buf, len); else CODictWrBuffer(&s.node->Dict, CO_DEV(bi, bi == 0x2100 ? 1 : 0), buf, len); free(buf); break; }
